@@ -457,13 +457,16 @@ def run(chk):
                     fails.append({"case": c["name"], "files": c["files"], "why": "generated Rust refers to crate `%s` but Cargo.toml does not declare it" % r,
                                   "expected": "dependency on " + r, "actual": declared})
             # (2) declares only what is needed
-            needed = {"incan_stdlib", "incan_derive"} | set(ms.get("crates", []))
-            if ms["ok"] and (trigger_paths(ms["tree"], 1) or trigger_paths(ms["tree"], 4)):
-                needed |= {"serde", "serde_json"}
-            if ms["ok"] and (trigger_paths(ms["tree"], 2) or trigger_paths(ms["tree"], 4)):
-                needed |= {"tokio"}
-            if ms["ok"] and trigger_paths(ms["tree"], 4):
-                needed |= {"axum"}
+            mods_ok = [m for m in [ms] + list(ds) if m["ok"]]
+            needed = {"incan_stdlib", "incan_derive"}
+            for m in mods_ok:
+                needed |= set(m.get("crates", []))
+                if trigger_paths(m["tree"], 1) or trigger_paths(m["tree"], 4):
+                    needed |= {"serde", "serde_json"}
+                if trigger_paths(m["tree"], 2) or trigger_paths(m["tree"], 4):
+                    needed |= {"tokio"}
+                if trigger_paths(m["tree"], 4):
+                    needed |= {"axum"}
             for n in declared:
                 if n not in needed:
                     fails.append({"case": c["name"], "files": c["files"], "why": "Cargo.toml declares `%s`, which nothing in the program needs" % n,
